@@ -449,6 +449,18 @@ func c19Rules(c *Ctx) {
 	// unknown name / bound twice: the slot index must be the index of the parameter whose name matched, found either
 	// by an inline loop (`params[j].Name == name` on the controlling path, same j) or by an index-lookup helper.
 	idxFns := indexLookupFns(t)
+	{
+		var hs []*ssa.Function
+		for h := range idxFns {
+			hs = append(hs, h)
+		}
+		sortFuncs(hs)
+		for _, h := range hs {
+			why, partial := partialLookup[h]
+			r.Ob("REJECTS", "name lookup "+relName(h)+" searches every declared parameter", t.Pos(h.Pos()), !partial,
+				"a named argument may name any parameter that is still unbound, whatever its position in the declaration: "+why+" — a later named argument that refers to an earlier-declared parameter is not found and the call is rejected although it binds")
+		}
+	}
 	for f := range idxFns {
 		r.Fn(relName(f))
 	}
@@ -697,10 +709,11 @@ func ordinalOf(fn *ssa.Function, x ssa.Instruction) int {
 func indexLookupFns(t *Tree) map[*ssa.Function]bool {
 	out := map[*ssa.Function]bool{}
 	for _, f := range t.PkgFuncs(pRT2) {
-		if f.Signature.Results().Len() != 1 || !isIntType(f.Signature.Results().At(0).Type()) || len(f.Params) != 2 {
+		if f.Signature.Results().Len() != 1 || !isIntType(f.Signature.Results().At(0).Type()) || len(f.Params) < 2 || len(f.Params) > 3 {
 			continue
 		}
 		retIdx, retNeg, bad := false, false, false
+		var idxVal ssa.Value
 		allInstrs(f, func(in ssa.Instruction) {
 			ret, ok := in.(*ssa.Return)
 			if !ok {
@@ -720,6 +733,7 @@ func indexLookupFns(t *Tree) map[*ssa.Function]bool {
 				if bo, ok := ec.Cond.(*ssa.BinOp); ok && bo.Op == token.EQL && ec.Pol {
 					if nameCmpIndex(bo) == ret.Results[0] {
 						okc = true
+						idxVal = ret.Results[0]
 					}
 				}
 			}
@@ -731,9 +745,38 @@ func indexLookupFns(t *Tree) map[*ssa.Function]bool {
 		})
 		if retIdx && retNeg && !bad {
 			out[f] = true
+			// the search must cover every parameter: the index starts at the constant 0 (or is a range index)
+			if why := lookupStart(idxVal); why != "" {
+				partialLookup[f] = why
+			}
 		}
 	}
 	return out
+}
+
+// partialLookup: index-lookup helpers whose search does not start at the first parameter, with the reason.
+var partialLookup = map[*ssa.Function]string{}
+
+func lookupStart(idx ssa.Value) string {
+	if idx == nil || isRangeIndex(idx) {
+		return ""
+	}
+	ph, ok := idx.(*ssa.Phi)
+	if !ok {
+		return ""
+	}
+	for _, e := range ph.Edges {
+		if k, isC := constInt(e); isC {
+			if k != 0 {
+				return fmt.Sprintf("the search starts at index %d", k)
+			}
+			continue
+		}
+		if _, isParam := e.(*ssa.Parameter); isParam {
+			return "the search starts at the index given in parameter `" + e.Name() + "`, not at the first parameter"
+		}
+	}
+	return ""
 }
 
 // nameCmpIndex: for `params[j].Name == x` returns the SSA value j.
